@@ -194,6 +194,7 @@ static std::unordered_map<uint64_t, int> *g_visited;
 static int g_bound = 0;
 struct Stats {
   long executions = 0, pruned = 0, transitions = 0;
+  std::string last_schedule;
   std::set<uint64_t> sync_orders, states;
   std::set<std::string> outcomes;
   int completed_bound = -1;
@@ -268,6 +269,7 @@ static bool explore(Harness &H, const Program &P, int bound, Stats &S, long max_
       return true;  // first (minimal-bound) counterexample of this program is enough
     }
     if (e.crashed) continue;
+    S.last_schedule = sched_str(e.choices());
     int used = 0;
     bool pruned_here = false;
     std::vector<uint8_t> ch;
@@ -315,7 +317,7 @@ int main(int argc, char **argv) {
   if (th) {
     for (int a = 0; a < NOPS; a++) for (int b = a; b < NOPS; b++) for (int c = b; c < NOPS; c++) triples.push_back({a, b, c});
   } else {
-    triples = {{1, 1, 7}, {7, 7, 7}, {6, 6, 6}, {1, 7, 2}, {0, 1, 7}, {5, 7, 1}, {3, 4, 7}, {2, 6, 7}, {1, 1, 1}, {8, 1, 7}, {9, 9, 9}, {9, 1, 7}, {10, 10, 10}, {10, 3, 5}};
+    triples = {{1, 1, 7}, {7, 7, 7}, {6, 6, 6}, {1, 7, 2}, {0, 1, 7}, {5, 7, 1}, {3, 4, 7}, {2, 6, 7}, {1, 1, 1}, {8, 1, 7}, {9, 9, 9}, {9, 1, 7}, {10, 10, 10}, {10, 3, 5}, {11, 11, 7}};
   }
   for (auto &t : triples) progs.push_back({0, {{t[0]}, {t[1]}, {t[2]}}});
   for (auto &t : std::vector<std::vector<int>>{{6, 6, 6}, {6, 1, 7}, {7, 7, 6}}) progs.push_back({1, {{t[0]}, {t[1]}, {t[2]}}});
@@ -396,7 +398,7 @@ int main(int argc, char **argv) {
     H.counters["max:distinct_outcomes_per_program"] = std::max<long>(H.counters["max:distinct_outcomes_per_program"], (long)S.outcomes.size());
     H.counters["max:executions_per_program"] = std::max<long>(H.counters["max:executions_per_program"], S.executions);
     H.cls(std::string("threads:") + std::to_string(P.ops.size()) + ":ops:" + std::to_string(P.ops[0].size()) + ":variant" + std::to_string(P.variant));
-    if (H.samples.size() < 6) H.samples.push_back(P.str() + ": " + std::to_string(S.executions) + " executions, " + std::to_string(S.states.size()) + " states, " + std::to_string(S.sync_orders.size()) + " distinct synchronisation orders, completed preemption bound " + std::to_string(S.completed_bound) + (S.unbounded_complete ? ", unbounded search complete" : ", unbounded search capped"));
+    if (H.samples.size() < 6) H.samples.push_back(P.str() + ": " + std::to_string(S.executions) + " executions, " + std::to_string(S.states.size()) + " states, " + std::to_string(S.sync_orders.size()) + " distinct synchronisation orders, completed preemption bound " + std::to_string(S.completed_bound) + (S.unbounded_complete ? ", unbounded search complete" : ", unbounded search capped") + "; last schedule explored (choice index at each scheduling point): " + S.last_schedule);
   }
   if (any_incomplete) H.capped = true;
   return H.finish();
